@@ -2,7 +2,7 @@
 C02 — floating-point arithmetic and conversions are bit-exact.
 
 Property theorems only (definitions and helper lemmas live in Spec/FpuSpec, Spec/FpC11Spec, Model/FpMachine,
-Model/FpCodegen and Lemmas/Fp*.lean).
+Model/FpCodegen, Model/FpChain, Spec/FpChainSpec and Lemmas/Fp*.lean).
 
 What is proved, and relative to what.  The *results* of SSE/x87 instructions are not formalised; they are the fields of an
 abstract `F : FpuSpec` whose `Prop` fields are the Intel-SDM contracts (Spec/FpuSpec.lean).  Every theorem below is for
@@ -22,6 +22,14 @@ regenerated table and `C02_select` holds for all 144 − 81 = 63 cells with a fl
 `C02_const_literal` / `C02_const_rounded` for every spelling.  Witnesses that the *old* formulas were wrong are kept in
 Findings/C02.lean, marked repaired.
 
+Chains (`C02_cast_link`, `C02_cast_chain`, `C02_roundtrip_rounds`, `C02_roundtrip_not_identity`): `gen_expr`'s ND_CAST arm prints
+one `cast()` per node, nothing elided (Model/FpChain.lean, tied to `chibicc -S` by text on generated chains in `return`,
+assignment and `?:` contexts); the code of `(Tn)…(T1)e` computes the composition of the C11 conversions in order for every
+chain over the twelve arithmetic types — integer-only links by C01's `C01_cast` transported to the floating machine — and
+`(int)(float)e`, `(long)(double)e` are provably not the identity.  Mixed operands (`C02_binary_code`, `C02_binary_value_sse`,
+`C02_binary_value_x87`): the code of `a OP b` converts each operand by the cell of (its type, the C11 common type) and applies
+the operator of the common type, left operand first, in both of `gen_expr`'s evaluation orders.
+
 One hypothesis is not a region but the ABI: the two cells that do x87 *arithmetic* (unsigned long ↔ long double at ≥ 2^63:
 `fadds` of 2^64, `fsub` of 2^63) are exact only when the x87 precision-control field selects double extended precision,
 which the psABI prescribes (control word 0x37f at process start, preserved across calls); `C02_select` asks for it in
@@ -33,6 +41,7 @@ import ChibiVerif.Lemmas.FpRoundLemmas
 import ChibiVerif.Lemmas.FpLiteralLemmas
 import ChibiVerif.Lemmas.FpIeeeLemmas
 import ChibiVerif.Lemmas.FpChainLemmas
+import ChibiVerif.Lemmas.FpBinaryLemmas
 
 namespace ChibiVerif.Props.C02
 open ChibiVerif.Fp ChibiVerif.Asm ChibiVerif.X86 ChibiVerif.Spec.Fpu ChibiVerif.FpCodegen ChibiVerif.Spec.FpC11
@@ -305,6 +314,23 @@ example : ∃ (F : FpuSpec) (s : FState) (y : AVal),
   ⟨Toy.toy, ⟨{ regs := fun _ => 0xdeadbeeff0000001#64, mem := fun _ => 0 }, 0, 0, [], 0x37f#16⟩, _, rfl,
     by simp [Holds, RInt, ITy.inRange, ITy.min, ITy.max, ITy.signed, ITy.bits, State.get], rfl, by decide, by decide⟩
 
+/-- **C02 (the functions the text tie compiles are these chains).**  The bodies `chibicc -S` is compared with on every run
+    (`R f(void) { return (Tn)…(T1)a; }`, `g = (Tn)…(T1)a;`) are the operand's load followed by exactly the instruction sequence
+    `chainSeq` that `C02_cast_chain` is about — for `return` with the return type, for an assignment with the type of the
+    left-hand side, as one more link at the end. -/
+theorem C02_cast_chain_code (t0 : ATy) (ts : List ATy) (r : ATy) :
+    instrsOf (fnChainRet (descr t0) (ts.map descr) (descr r)) =
+      instrsOf (varA ++ load (descr t0)) ++ chainSeq t0 (ts ++ [r]) ∧
+    instrsOf (fnChainAssign (descr t0) (ts.map descr) (descr r)) =
+      instrsOf [ins2 "lea" (.s "g(%rip)") (.r "%rax"), ins1 "push" (.r "%rax")] ++
+        (instrsOf (varA ++ load (descr t0)) ++ chainSeq t0 (ts ++ [r])) ++
+        instrsOf (FpChain.store (descr r) ++ FpChain.discard (descr r) ++ [ins2 "mov" (.i 0) (.r "%rax")]) := by
+  have h : (leafA (descr t0)).wrap (ts.map descr ++ [descr r]) = nest t0 (varA ++ load (descr t0)) (ts ++ [r]) := by
+    simp [nest, leafA]
+  constructor
+  · rw [fnChainRet, h, nest_gen]
+  · simp only [fnChainAssign, instrsOf_append, h, nest_gen, List.append_assoc]
+
 /-- **C02 (through float and back).**  For every integer type `T` other than `_Bool`, every FPU meeting the contract and every
     value `v` of type `T`: the code of `(T)(float)e` leaves `v` rounded to 24 significant bits (nearest, ties to even), and the
     code of `(T)(double)e` leaves `v` rounded to 53 significant bits — whenever that is a value of `T` (otherwise C11 leaves
@@ -383,6 +409,108 @@ example : ∃ (F : FpuSpec) (s : FState), Fp.run F (instrsOf []) s = some s ∧ 
 example : ∃ (F : FpuSpec) (s : FState), Fp.run F (instrsOf []) s = some s ∧ Holds (.int .i64) s (.int 9007199254740993) :=
   ⟨Toy.toy, ⟨{ regs := fun _ => 0x0020000000000001#64, mem := fun _ => 0 }, 0, 0, [], 0x37f#16⟩, rfl,
     by simp [Holds, RInt, ITy.inRange, ITy.min, ITy.max, ITy.signed, ITy.bits, State.get]⟩
+
+/-! ## binary operators on operands of two different types (usual arithmetic conversions at work) -/
+
+/-- **C02 (mixed operands: each operand is converted by the cell the rank rule selects).**  For every one of the ten binary
+    operators and every pair of arithmetic types whose C11 common type `c = usualArith a b` (6.3.1.8, the *specification's*
+    function) is floating, the code of `a OP b` (`fnBinary`, over `get_common_type` regenerated from type.c and the regenerated
+    cast table; tied to `chibicc -S` by text for all 63 × 10 cases) is: each operand loaded and converted by exactly
+    `cast(its type, c)`, the operands of `>` / `>=` exchanged, evaluated left then right on the x87 stack when `c` is long double
+    and right, `pushf`, left, `popf(1)` otherwise, followed by the operator lines of `c` — not of `a`, `b` or any other type.
+    For the arithmetic operators (no exchange) its instructions are `binarySeq c op a b` over the two loads, the sequence whose
+    value `C02_binary_value_sse` / `C02_binary_value_x87` establish. -/
+theorem C02_binary_code (op : SrcOp) (a b : ATy) (ha : a ∈ ATy.all) (hb : b ∈ ATy.all)
+    (hfp : (usualArith a b).isFp = true) :
+    ∃ opl code, fpOp (descr (usualArith a b)) op.node.1 = some opl ∧ fnBinary op (descr a) (descr b) = some code ∧
+      code = (let ea := operandCode varA a (usualArith a b)
+              let eb := operandCode varB b (usualArith a b)
+              let l := if op.node.2 then eb else ea
+              let r := if op.node.2 then ea else eb
+              if usualArith a b = .f80 then l ++ r ++ opl else r ++ pushf ++ l ++ popf1 ++ opl) ∧
+      (op.node.2 = false →
+        instrsOf code = binarySeq (usualArith a b) op.node.1 a b (instrsOf (varA ++ load (descr a)))
+          (instrsOf (varB ++ load (descr b)))) := by
+  have hr := C02_rank a ha b hb
+  generalize hc : usualArith a b = c at hr hfp
+  cases c with
+  | int t => simp [ATy.isFp] at hfp
+  | f32 =>
+    refine ⟨_, _, rfl, by simp only [fnBinary, hr]; rfl, by cases op <;> rfl, ?_⟩
+    intro h
+    cases op <;> simp [SrcOp.node] at h <;>
+      simp [binarySeq, instrsOf_append, castSeq, SrcOp.node, descr, ty_float, List.append_assoc]
+  | f64 =>
+    refine ⟨_, _, rfl, by simp only [fnBinary, hr]; rfl, by cases op <;> rfl, ?_⟩
+    intro h
+    cases op <;> simp [SrcOp.node] at h <;>
+      simp [binarySeq, instrsOf_append, castSeq, SrcOp.node, descr, ty_double, List.append_assoc] <;> rfl
+  | f80 =>
+    refine ⟨_, _, rfl, by simp only [fnBinary, hr]; rfl, by cases op <;> rfl, ?_⟩
+    intro h
+    cases op <;> simp [SrcOp.node] at h <;>
+      simp [binarySeq, instrsOf_append, castSeq, SrcOp.node, descr, ty_ldouble, List.append_assoc]
+
+/-- non-vacuity: 63 of the 144 pairs have a floating common type; e.g. unsigned long with float is float, int with long double
+    is long double -/
+example : ((ATy.all.flatMap fun a => ATy.all.map fun b => (a, b)).filter fun p => (usualArith p.1 p.2).isFp).length = 63 ∧
+    usualArith (.int .u64) .f32 = .f32 ∧ usualArith (.int .i32) .f80 = .f80 := by decide
+
+/-- **C02 (mixed operands, float / double common type: the value).**  `a OP b` for `OP` ∈ {+, −, ×, ÷} when the common type
+    `c = usualArith a b` is float or double.  `gen_expr` evaluates the RIGHT operand first (`hrunB`, `hy`: its code has left its
+    value `y`), converts it with `cast(b, c)`, saves it with `pushf()`, evaluates the left operand (`hx`: any code that yields `x`
+    without writing memory, %rsp, the control word or the x87 stack), converts it with `cast(a, c)`, restores the right operand
+    into %xmm1 with `popf(1)` and applies the operator of type `c`.  For every FPU meeting the contract the result is
+    `(c)x OP (c)y` — the C11 conversions of both operands to the common type, one application of the FPU's operation with the
+    LEFT operand first — with %rsp, the control word and the x87 stack as they were.
+    Composes `C02_cast_link` (twice), `C02_arith`, and the frame fact that the conversions to float / double from any type but
+    long double use registers only, so that the saved operand survives the evaluation of the other one. -/
+theorem C02_binary_value_sse (F : FpuSpec) (op : FOp) (hop : op.isCmp = false) (a b : ATy)
+    (hc : usualArith a b = .f32 ∨ usualArith a b = .f64)
+    (codeA codeB : List Ins) (x y x' y' z : AVal) (s0 s : FState)
+    (hrunB : Fp.run F codeB s0 = some s) (hy : Holds b s y) (hx : Yields F codeA a x)
+    (cx : convert F s.cw (usualArith a b) x = some x') (cy : convert F s.cw (usualArith a b) y = some y')
+    (hz : arithVal F s.cw op x' y' = some z) :
+    ∃ s', Fp.run F (binarySeq (usualArith a b) op a b codeA codeB) s0 = some s' ∧ Holds (usualArith a b) s' z ∧
+      s'.x.get .rsp = s.x.get .rsp ∧ s'.cw = s.cw ∧ s'.st = s.st := by
+  have ha : a ≠ .f80 := by rintro rfl; rcases hc with h | h <;> simp [Spec.FpC11.usualArith] at h
+  have hb : b ≠ .f80 := by rintro rfl; rcases hc with h | h <;> cases a <;> simp [Spec.FpC11.usualArith] at h
+  exact binary_sse F op hop a b _ hc ha hb codeA codeB x y x' y' z s0 s hrunB hy hx cy cx hz
+
+/-- non-vacuity: `5L + d` on the toy FPU: the left operand is the constant 5 (`mov $5, %rax` yields it from every state), the
+    right operand a double already in %xmm0; common type double -/
+example : ∃ (F : FpuSpec) (codeA : List Ins) (s : FState) (y x' y' z : AVal),
+    (usualArith (.int .i64) .f64 = .f32 ∨ usualArith (.int .i64) .f64 = .f64) ∧
+    Fp.run F [] s = some s ∧ Holds .f64 s y ∧ Yields F codeA (.int .i64) (.int 5) ∧
+    convert F s.cw (usualArith (.int .i64) .f64) (.int 5) = some x' ∧ convert F s.cw (usualArith (.int .i64) .f64) y = some y' ∧
+    arithVal F s.cw .add x' y' = some z :=
+  ⟨Toy.toy, [⟨"mov", [.i 5, .r "%rax"]⟩], ⟨{ regs := fun _ => 0, mem := fun _ => 0 }, 0x4008000000000000#64, 0, [], 0x37f#16⟩,
+    .f64 0x4008000000000000#64, _, _, _, Or.inr rfl, rfl, rfl, yields_mov _ 5 (by decide), rfl, rfl, rfl⟩
+
+/-- **C02 (mixed operands, long double common type: the value).**  `a OP b` for `OP` ∈ {+, −, ×, ÷} when the common type is long
+    double: `gen_expr` evaluates the LEFT operand first (`hrunA`, `hx`), converts it with `cast(a, long double)` onto the x87
+    stack, evaluates the right operand (`hy`) and converts it with `cast(b, long double)`, then `faddp` / `fsubrp` / `fmulp` /
+    `fdivrp`.  The result on top of the x87 stack is `(long double)x OP (long double)y`, left operand first, computed under the
+    control word in force; the stack below, %rsp and the control word are unchanged.  `hpc`: an unsigned long operand is
+    converted by the cell that does x87 arithmetic and needs the ABI's precision control. -/
+theorem C02_binary_value_x87 (F : FpuSpec) (op : FOp) (hop : op.isCmp = false) (a b : ATy) (hc : usualArith a b = .f80)
+    (codeA codeB : List Ins) (x y x' y' z : AVal) (s0 s : FState)
+    (hrunA : Fp.run F codeA s0 = some s) (hx : Holds a s x) (hy : Yields F codeB b y)
+    (cx : convert F s.cw (usualArith a b) x = some x') (cy : convert F s.cw (usualArith a b) y = some y')
+    (hz : arithVal F s.cw op x' y' = some z)
+    (hpc : (usesX87Arith a .f80 || usesX87Arith b .f80) = true → pc s.cw = 3#2) :
+    ∃ s', Fp.run F (binarySeq (usualArith a b) op a b codeA codeB) s0 = some s' ∧ Holds (usualArith a b) s' z ∧
+      s'.x.get .rsp = s.x.get .rsp ∧ s'.cw = s.cw ∧ stBelow .f80 s' = stBelow a s := by
+  rw [hc] at cx cy ⊢
+  exact binary_x87 F op hop a b codeA codeB x y x' y' z s0 s hrunA hx hy cx cy hz hpc
+
+/-- non-vacuity: `l / 5L` with the long double `l` on the x87 stack and the constant 5 as right operand -/
+example : ∃ (F : FpuSpec) (codeB : List Ins) (s : FState) (x x' y' z : AVal),
+    usualArith .f80 (.int .i64) = .f80 ∧ Fp.run F [] s = some s ∧ Holds .f80 s x ∧ Yields F codeB (.int .i64) (.int 5) ∧
+    convert F s.cw (usualArith .f80 (.int .i64)) x = some x' ∧ convert F s.cw (usualArith .f80 (.int .i64)) (.int 5) = some y' ∧
+    arithVal F s.cw .div x' y' = some z ∧ ((usesX87Arith .f80 .f80 || usesX87Arith (.int .i64) .f80) = true → pc s.cw = 3#2) :=
+  ⟨Toy.toy, [⟨"mov", [.i 5, .r "%rax"]⟩], ⟨{ regs := fun _ => 0, mem := fun _ => 0 }, 0, 0, [Toy.T80], 0x37f#16⟩,
+    .f80 Toy.T80, _, _, _, rfl, rfl, ⟨[], rfl⟩, yields_mov _ 5 (by decide), rfl, rfl, rfl, by decide⟩
 
 /-! ## unsigned long at ≥ 2^63, spelled out -/
 
